@@ -39,6 +39,7 @@ func tryReplay(dir, prop string, o *Obligation) (string, bool) {
 	if _, err := os.Stat(tmpl); err != nil || o.PkgDir == "" || len(o.Values) == 0 {
 		return "", false
 	}
+	os.MkdirAll(dir, 0o755)
 	rf := &replayFile{Property: prop, Obligation: o.Name, Label: o.Label, Clause: o.Src, Function: o.Fn, PkgDir: o.PkgDir,
 		Template: tmpl, Values: o.Values, Solver: o.Solver}
 	path := filepath.Join(dir, fileSafe(o.Name)+".replay.json")
